@@ -448,7 +448,11 @@ fn barrier_(p: &mut Parser<'_>, m: Marker) {
 
 fn delay_stmt(p: &mut Parser<'_>, m: Marker) {
     p.bump(T![delay]);
-    expressions::designator(p);
+    if p.at(T!['[']) {
+        expressions::designator(p);
+    } else {
+        p.error("expected designator `[duration]` after `delay`");
+    }
     params::arg_list_gate_call_qubits(p);
     p.expect(SEMICOLON);
     m.complete(p, DELAY_STMT);
